@@ -1,5 +1,5 @@
 """C14 — print formatting equals C formatting, on every sink, with exact positions (engine fmt)."""
-import ctypes, struct, itertools
+import ctypes, struct, itertools, locale
 from ..runner import Spec, Case
 from .. import core
 
@@ -8,12 +8,20 @@ _buf = ctypes.create_string_buffer(1 << 16)
 
 def libc_print(frag, kind, value):
     """what libc prints for one format_to call, given exactly what print_to_with passes through the varargs
-    (an int64_t for every integer conversion and %c, a double, a char*)"""
-    if kind == 'i': n = _libc.snprintf(_buf, len(_buf), frag, ctypes.c_int64(value))
-    elif kind == 'd': n = _libc.snprintf(_buf, len(_buf), frag, ctypes.c_double(struct.unpack('<d', struct.pack('<Q', value))[0]))
-    elif kind == 's': n = _libc.snprintf(_buf, len(_buf), frag, ctypes.c_char_p(value))
-    else: raise ValueError(kind)
-    if n < 0 or n >= len(_buf): raise ValueError(f'libc refused {frag!r}')
+    (an int64_t for every integer conversion and %c, a double, a char*); None when libc REJECTS the call (negative result).
+    The harness never calls setlocale, so it runs in the "C" locale; Python does call it at start-up, hence the switch for %lc."""
+    wide = frag.endswith(b'lc')
+    if wide:
+        saved = locale.setlocale(locale.LC_CTYPE); locale.setlocale(locale.LC_CTYPE, 'C')
+    try:
+        if kind == 'i': n = _libc.snprintf(_buf, len(_buf), frag, ctypes.c_int64(value))
+        elif kind == 'd': n = _libc.snprintf(_buf, len(_buf), frag, ctypes.c_double(struct.unpack('<d', struct.pack('<Q', value))[0]))
+        elif kind == 's': n = _libc.snprintf(_buf, len(_buf), frag, ctypes.c_char_p(value))
+        else: raise ValueError(kind)
+    finally:
+        if wide: locale.setlocale(locale.LC_CTYPE, saved)
+    if n < 0: return None
+    if n >= len(_buf): raise ValueError(f'output of {frag!r} too long for the generator')
     return _buf.raw[:n]
 
 def hx(b): return b.hex() if b else '-'
@@ -152,13 +160,16 @@ def make_op(segs, args, old=b'', start=0, letter='P'):
             if frag != b'%c': calls.append((frag, 'i', a[1]))
         elif need == 'f': calls.append((frag, 'd', a[1]))
         else: calls.append((frag, 's', a[1]))
+        rejected = False
         for f, kind, v in calls:
             tok = ('i%d' % v) if kind == 'i' else ('d%016x' % v) if kind == 'd' else 's' + hx(v)
             if (f, tok) not in table: table[(f, tok)] = libc_print(f, kind, v)
+            if table[(f, tok)] is None: rejected = True
+        if rejected: break          # print_to_with raises FormatError here: nothing after it is called
     toks = [letter, str(start), hx(old), hx(fmt), str(len(args))]
     for a in args: toks += arg_tokens(a)
     toks += ['T', str(len(table))]
-    for (f, tok), out in table.items(): toks += [hx(f), tok, hx(out)]
+    for (f, tok), out in table.items(): toks += [hx(f), tok, '!' if out is None else hx(out)]
     return ' '.join(toks)
 
 def make_M(fmt, args, old=b'', start=0):
@@ -198,6 +209,57 @@ def gen_random_op(rng, maxseg=8):
         i = rng.randrange(len(args)); args[i] = gen_scalar(rng)
     old, start = gen_old_start(rng)
     return make_op(segs, args, old, start)
+
+# ---- specifications libc rejects (negative result): op J -----------------------------------------------------------------
+WIDE_BAD = [0x80, 0xff, 0x100, 0x20ac, 0xd800, 0xffff, 0x10000, 0x10ffff, 0x110000, 2**31 - 1, 2**31, 2**32 - 1, -1, -2, -128, 2**32 + 0x80, 2**63 - 1, -2**63 + 0x90]
+HUGE = ['2147483648', '4294967296', '4294967297', '99999999999', '18446744073709551616']
+
+def gen_rejected(rng):
+    """(segment, argument) of a specification that libc rejects: %lc with a value the "C" locale cannot encode (low 32 bits outside
+    0..127), or a width / precision that does not fit an int (EOVERFLOW) — the latter inside the property's grammar"""
+    r = rng.random()
+    if r < 0.6:
+        flags = rng.choice(['', '', '-', '0', '-0'][:3]); width = rng.choice(['', '', '1', '5', '12'])
+        v = rng.choice(WIDE_BAD) if rng.random() < 0.7 else (rng.randrange(-2**63, 2**63) | 0x80)
+        if v & 0xffffffff < 0x80: v |= 0x80
+        return ('spec', flags + width + 'l', 'c'), ('i', v)
+    conv = rng.choice('dixXufegscdis')
+    body = rng.choice(HUGE) if rng.random() < 0.7 or conv == 'c' else '.' + rng.choice(HUGE)
+    lm = rng.choice(['', 'l', 'll', 'hh']) if conv in INT_CONV else ''
+    return ('spec', rng.choice(['', '', '-', '0']) + body + lm, conv), gen_arg_for(rng, conv)
+
+def gen_wide_ok(rng):
+    """%lc that libc accepts in the "C" locale (1..127)"""
+    v = rng.randrange(1, 128) + rng.choice([0, 0, 2**32, -2**32, 2**40])
+    return ('spec', rng.choice(['', '', '-', '-3', '4']) + 'l', 'c'), ('i', v)
+
+def gen_plain_seg(rng):
+    r = rng.random()
+    if r < 0.35: return ('lit', gen_bytes(rng, 1, 8, no_pct=True))
+    if r < 0.45: return ('pct',)
+    if r < 0.55: return gen_wide_ok(rng)[0]
+    return gen_spec(rng)
+
+def gen_reject_op(rng, where):
+    """a format with one rejected specification at the start / in the middle / at the end (`where`), sometimes a second one later;
+    enough arguments of the right class (a missing or wrong-class argument BEFORE it wins, covered by a small share)"""
+    npre = 0 if where == 'start' else rng.randrange(1, 5)
+    npost = 0 if where == 'end' else rng.randrange(1, 5)
+    if where == 'only': npre = npost = 0
+    rej, rej_arg = gen_rejected(rng)
+    pre = [gen_plain_seg(rng) for _ in range(npre)]; post = [gen_plain_seg(rng) for _ in range(npost)]
+    if post and rng.random() < 0.15: post[rng.randrange(len(post))] = gen_rejected(rng)[0]
+    args = []
+    for sg in pre + [rej] + post:
+        if sg[0] != 'spec': continue
+        if sg is rej: args.append(rej_arg)
+        elif sg[2] == 'c' and sg[1].endswith('l'): args.append(('i', rng.randrange(1, 128) if sg in pre else rng.choice(WIDE_BAD + [65, 66])))
+        else: args.append(gen_arg_for(rng, sg[2]))
+    r = rng.random()
+    if args and r < 0.06: args = args[:rng.randrange(0, len(args))]
+    elif args and r < 0.09: args[rng.randrange(len(args))] = gen_scalar(rng)
+    old, start = gen_old_start(rng)
+    return make_op(pre + [rej] + post, args, old, start, letter='J')
 
 def grid_specs():
     """every (conversion, length modifier, flag set, width, precision) of the grammar on a small lattice"""
@@ -247,12 +309,13 @@ class C14(Spec):
                   'format (any literal bytes, %%, any specification body free of conversion characters ending in a conversion character — the '
                   'printf grammar of the property is proved to be a subset), every argument list, sink and start position, the scanner model '
                   'executes exactly the grammar segments in order with the k-th specification taking the k-th argument, raises FormatError '
-                  'exactly when a specification has no argument, reads only indices <= strlen(fmt) and writes only fmt_buf indices <= strlen(fmt); '
+                  'exactly when a specification has no argument or libc rejects one of the calls (off < 0; C14_too_few), leaves String and File as the prefix left them on '
+                  'a rejected call (C14_reject_unchanged, tied to the position of `if (size < 0) { return size; }` in String_Format_To read from the source), reads only indices <= strlen(fmt) and writes only fmt_buf indices <= strlen(fmt); '
                   'for every format the returned position is start + the characters written, the String sink is old[0..start) ++ text and the '
                   'File sink gets the same text from the same primitive calls. What libc prints for one specification is a parameter (trusted). '
                   'The model is tied to the code by regenerating the scan set / dispatch / show formats / function text from /repo every run and by '
                   'running thousands of generated formats on the real print_to_with (recording sink, String, File) and on the model.')
-    level_note = ('Trusted: Lean kernel; libc vsnprintf/vsprintf/vfprintf for one specification (the parameter `prim`) and that a whole-format printf equals '
+    level_note = ('Trusted: Lean kernel; libc vsnprintf/vsprintf/vfprintf for one specification (the parameter `libc`: text and rejection) and that a whole-format printf equals '
                   'the concatenation of its specifications; translate/g_fmt.py; harness/driver comparison (testing). Known finding F29 (partial output '
                   'before FormatError) is modelled and proved as C14_unchanged_on_error_refuted. Malformed tails ("...%") leave the buffers: modelled (oob), outside the property.')
     rule = ('op = one print_to_with call (format, arguments, old sink content, start position) executed on a recording sink, a String and a File. '
@@ -260,17 +323,21 @@ class C14(Spec):
             '(b) every sequence of up to 4 segment kinds (literal, %%, integer, string, %$) so that specifications occur first, last and adjacent, '
             '(c) random formats of up to 8 segments (literal bytes 1..255, %%, specifications with flags/width/precision/length) with Int over the full '
             'int64 range, Float over all bit patterns, String bytes 1..255, %$ on Int/Float/String/Array/List/Tuple (nested), too few / too many / wrong-class '
-            'arguments, start positions 0..len(old), (d) formats outside the grammar run in a forked child (does the code leave its buffers?). '
+            'arguments, start positions 0..len(old), (d) formats outside the grammar run in a forked child (does the code leave its buffers?), '
+            '(e) formats with a specification libc REJECTS (%lc with a value outside 0..127 in the "C" locale, widths/precisions >= 2^31) as the only segment, '
+            'first, in the middle and last, after prefixes that are written (literal, %%, accepted specifications incl. accepted %lc), with a second rejected one later, '
+            'with too few / wrong-class arguments before it; each on the recording sink, a String and a File, in a forked child (op J). '
             'non-trivial = the format has at least one argument-consuming specification; distinct = distinct op text.')
     trusted_base = ('translate/g_fmt.py (regex over src/Show.c print_to_with, String_Format_To, File_Format_To and the Show functions of Num.c, String.c, Array.c, Tuple.c, List.c)',
                     'harness/h_fmt.c + lean/Driver/Fmt.lean (correspondence is testing)',
-                    'libc printf family for ONE specification (model parameter `prim`; the op files carry its results, computed by the generator through ctypes from the same libc)',
+                    'libc printf family for ONE specification (model parameter `libc`: its text, or that it rejects the call; the op files carry its results, computed by the generator through ctypes from the same libc in the "C" locale)',
                     'x86-64 SysV varargs: an int64_t passed where printf reads an int yields its low 32 bits (what print_to_with relies on for %d, %c, %hd ...)')
     assumptions = ('length modifiers restricted to those whose C type print_to_with can supply: hh h l ll j z t for integers, l for floating, none for c s p $ '
-                   '(not L; not %lc / %ls: libc rejects the call and String_Format_To then shrinks the buffer to pos bytes — reported separately)',
+                   '(not L, not %ls); %lc is generated in the forked J ops only (libc rejects it for values the "C" locale cannot encode)',
                    'no `*` width/precision, no %n, no positional arguments (not in the property grammar)',
                    'String sink: start position <= strlen(old) (beyond it C leaves indeterminate bytes); start >= 0; positions fit an int',
-                   'libc formatting of one specification succeeds (the `off < 0` branches are not modelled)',
+                   'a call libc rejects writes nothing before it fails (true of glibc for %lc / EILSEQ and for a width or precision overflowing int / EOVERFLOW: '
+                   'checked by the oracle on the File sink); other ways of failing (I/O error on the stream, output longer than INT_MAX) are not generated',
                    'File sink positioned at its end: File_Format_To ignores `pos`',
                    'on too few arguments only the exception is checked by the oracle: the partial output (F29) is a known finding, checked by op K only')
     def cases(self, rng, tier, boost=1):
@@ -307,6 +374,10 @@ class C14(Spec):
                 f = gen_bytes(rng, 0, 6, no_pct=True) + b'%' + ''.join(rng.choice('-+ #0123456789.hlz') for _ in range(rng.randrange(0, 5))).encode()
                 m.append(make_M(f, [gen_scalar(rng, rng.choice('fs')) for _ in range(rng.randrange(0, 3))], b'', 0))
         cs.append(Case('outside', m))
+        # (e) specifications libc rejects (negative result -> FormatError, sinks as the prefix left them), forked (op J)
+        nrej = (1600 if quick else 24000) * boost
+        lines = [gen_reject_op(rng, ('start', 'mid', 'end', 'only')[i % 4] if i % 5 else rng.choice(['start', 'mid', 'end'])) for i in range(nrej)]
+        for i, ch in enumerate(chunks(lines, 200 if quick else 1000)): cs.append(Case(f'rej{i}', ch))
         return cs
     def nontrivial_items(self, case, c_out, m_out):
         ops = [l for l in case.lines if l and not l.startswith('#')]
@@ -326,6 +397,7 @@ class C14(Spec):
                     frag = bytes.fromhex(c.split(':')[0]) if c.split(':')[0] != '-' else b''
                     if c.split(':')[1] != 'n' and frag:
                         k = 'conv_' + chr(frag[-1]); acc[k] = acc.get(k, 0) + 1
+        for l in core.lines_with('O J died', c_out): acc['forked_child_died'] = acc.get('forked_child_died', 0) + 1
         for l in core.lines_with('O M ', c_out):
             k = 'outside_' + l.split()[2]; acc[k] = acc.get(k, 0) + 1
         acc['outside_grammar_skipped'] = acc.get('outside_grammar_skipped', 0) + len(core.lines_with('O outside-grammar', c_out))
@@ -333,6 +405,11 @@ class C14(Spec):
             for kv in l.split()[1:]:
                 k, v = kv.split('='); acc['h_' + k] = acc.get('h_' + k, 0) + int(v)
         for l in core.lines_with('R len=', m_out):
+            if ' rejected=' in l and int(l.split(' rejected=')[1].split()[0]) > 0:
+                acc['rejected_calls'] = acc.get('rejected_calls', 0) + 1
+                ncalls = int(l.split(' calls=')[1].split()[0])
+                k = 'rejected_first_call' if ncalls == 1 else 'rejected_after_prefix'
+                acc[k] = acc.get(k, 0) + 1
             if ' ref=' in l:
                 segs = int(l.split(' segs=')[1].split()[0]); acc['max_segments'] = max(acc.get('max_segments', 0), segs)
                 acc['max_format_len'] = max(acc.get('max_format_len', 0), int(l.split('len=')[1].split()[0]))
